@@ -142,6 +142,38 @@ pub fn run_c18(cx: &mut Cx) {
             Err(c) => cx.violation("C18", "random/crash".into(), format!("{c:?}")),
         }
     });
+    // the same generators over SMALL moduli that are products of two distinct safe primes (a
+    // caller-supplied issuer modulus is plain data): the rare branches of the re-draw loops
+    // (square roots of unity, elements sharing a factor with N) are hit every few draws there
+    let (p, q) = [(7u32, 11u32), (11, 23), (23, 47), (47, 59), (59, 83), (83, 107), (167, 179)][cx.ch.choose("small_modulus", 7) as usize];
+    let small_span = [1u32, 2, 3, 5, 6, 7, 10, 100, 255, 256, 257][cx.ch.choose("small_span", 11) as usize];
+    let lo2 = Integer::from(cx.ch.choose("lo2", 1000) as i64 - 500);
+    cx.count("probe.small_safe_prime_modulus");
+    let lo3 = lo2.clone();
+    cx.step(drawer, "draws-small-modulus", StepOpts { tick_budget: 100_000, ..Default::default() }, move || {
+        let lo2 = lo3;
+        let n = Integer::from(p) * Integer::from(q);
+        let mut out: Vec<Integer> = (0..300).map(|_| zkryptium::utils::random::random_qr(&n)).collect();
+        let pk = zkryptium::cl03::keys::CL03PublicKey { N: n.clone(), b: out[0].clone(), c: out[1].clone() };
+        out.extend(Bases::generate(&pk, 40).0);
+        let hi = Integer::from(&lo2 + small_span);
+        let draws: Vec<Integer> = (0..600).map(|_| rand_int(lo2.clone(), hi.clone())).collect();
+        (out, draws)
+    }, move |cx, st| {
+        cx.eval(&[b"small-modulus", &p.to_le_bytes(), &q.to_le_bytes(), &small_span.to_le_bytes()], true);
+        let (pp, qq) = (Integer::from(p), Integer::from(q));
+        let n = Integer::from(&pp * &qq);
+        match st.out {
+            Ok((els, draws)) => {
+                cx.add("n.random_draws", (els.len() + draws.len()) as u64);
+                for (i, x) in els.iter().enumerate() { check_element(cx, &format!("{} (N = {p}*{q})", if i < 300 { "random_qr" } else { "a_i" }), x, &n, Some((&pp, &qq))); }
+                let hi = Integer::from(&lo2 + small_span);
+                if draws.iter().any(|x| *x < lo2 || *x > hi) { cx.violation("C18", "rand_int/out-of-range".into(), format!("a draw outside [{lo2}, {hi}]")); }
+                if small_span <= 10 && (!draws.contains(&lo2) || !draws.contains(&hi)) { cx.violation("C18", "rand_int/endpoint-never-drawn".into(), format!("600 draws from [{lo2}, {hi}] never produced an endpoint (probability below 1e-23 for a uniform draw)")); }
+            }
+            Err(c) => cx.violation("C18", "random/crash".into(), format!("small modulus {p}*{q}: {c:?}")),
+        }
+    });
     cx.run();
 }
 
